@@ -60,6 +60,7 @@ type Solvers struct {
 	fast    *proc
 	fastMiss int
 	rescues  map[string]int
+	classStats map[int]*classStat
 	Disagreements int
 }
 
@@ -85,7 +86,7 @@ func solverArgv(name string, timeoutMs int) ([]string, bool) {
 }
 
 func NewSolvers(ctx *TermCtx, order []string, timeout time.Duration, confirm bool) *Solvers {
-	s := &Solvers{ctx: ctx, cache: map[string]cacheEnt{}, timeout: timeout, confirm: confirm, auto: true, rescues: map[string]int{}}
+	s := &Solvers{ctx: ctx, cache: map[string]cacheEnt{}, timeout: timeout, confirm: confirm, auto: true, rescues: map[string]int{}, classStats: map[int]*classStat{}}
 	s.stats.Queries = map[string]int{}
 	s.stats.Wall = map[string]float64{}
 	for _, n := range order {
@@ -171,6 +172,10 @@ func (p *proc) define(sb *strings.Builder, ts []*Term) {
 		p.ndef++
 		if t.op == OVar {
 			fmt.Fprintf(sb, "(declare-const %s %s)\n", t.name, sortOf(t.w))
+			if t.ranged {
+				// the declared range is part of the variable: asserted at the base level
+				fmt.Fprintf(sb, "(assert (and (bvule %s %s) (bvule %s %s)))\n", constStr(t.w, t.rlo), t.name, t.name, constStr(t.w, t.rhi))
+			}
 			return
 		}
 		fmt.Fprintf(sb, "(define-fun t%d () %s %s)\n", t.id, sortOf(t.w), t.expr())
@@ -235,9 +240,21 @@ func (p *proc) check(asserts []*Term, vars []*Term) (Result, Model, string) {
 		n := atomic.AddInt64(&solverSeq, 1)
 		os.WriteFile(fmt.Sprintf("%s/q%05d-%s.smt2", d, n, p.name), []byte(sb.String()), 0644)
 	}
-	if _, err := io.WriteString(p.in, sb.String()); err != nil {
+	// the write itself can block (full pipe while the solver is busy): bound it too
+	werr := make(chan error, 1)
+	go func(w io.Writer, txt string) {
+		_, e := io.WriteString(w, txt)
+		werr <- e
+	}(p.in, sb.String())
+	select {
+	case err := <-werr:
+		if err != nil {
+			p.kill()
+			return Unknown, nil, "write: " + err.Error()
+		}
+	case <-time.After(p.timeout*2 + 10*time.Second):
 		p.kill()
-		return Unknown, nil, "write: " + err.Error()
+		return Unknown, nil, "write timeout"
 	}
 	ls, ok := p.readUntil("ZZDONE", p.timeout*2+10*time.Second)
 	p.queries++
@@ -373,34 +390,42 @@ func (s *Solvers) Check(asserts []*Term, wantModel bool) (Result, Model, string)
 		}
 	}
 	why := ""
+	// Empirical portfolio order per query class (has bitwise ops? has mul/div?): each of the
+	// first two solvers is tried first a few times, then the one with the lower mean cost
+	// (time to a definite answer; a miss counts as its timeout) goes first; re-sampled
+	// every 150 queries. (Probes: hmap bucket queries 43 ms bit-blasted vs 1.6 ms
+	// int-blasted; CRC/shift-heavy queries the other way round.)
 	procs := s.procs
-	// arithmetic-only queries (no bitwise operators): try int-blasting first with a short
-	// timeout (20x faster on div/mod/compare reasoning, probe: hmap bucket queries
-	// 43 ms -> 1.6 ms); adaptive: switched off for this worker after 3 consecutive misses
-	tryFast := false
-	if !hasFP && s.auto && s.fast != nil && s.fastMiss < 3 {
-		bit, div := false, false
-		for _, a := range as {
-			if a.hasBit {
-				bit = true
-			}
-			if a.hasDiv {
-				div = true
-			}
+	cls := 0
+	for _, a := range as {
+		if a.hasBit {
+			cls |= 1
 		}
-		tryFast = !bit && div
+		if a.hasDiv {
+			cls |= 2
+		}
 	}
-	if tryFast {
-		t0 := time.Now()
-		r, m, _ := s.fast.check(as, vars)
-		s.stats.Queries["cvc5int"]++
-		s.stats.Wall["cvc5int"] += time.Since(t0).Seconds()
-		if r != Unknown {
-			s.fastMiss = 0
-			s.cache[key] = cacheEnt{r, m}
-			return r, m, ""
+	st := s.classStats[cls]
+	if st == nil {
+		st = &classStat{}
+		s.classStats[cls] = st
+	}
+	if !hasFP && s.auto && len(s.procs) >= 2 {
+		st.n++
+		first := 0
+		switch {
+		case st.cnt[0] < 3 || st.cnt[1] < 3:
+			if st.cnt[1] < st.cnt[0] {
+				first = 1
+			}
+		case st.n%150 == 0:
+			first = 1 - st.best()
+		default:
+			first = st.best()
 		}
-		s.fastMiss++
+		if first == 1 {
+			procs = append([]*proc{s.procs[1], s.procs[0]}, s.procs[2:]...)
+		}
 	}
 	for pi, p := range procs {
 		if hasFP && p.noFP {
@@ -408,22 +433,21 @@ func (s *Solvers) Check(asserts []*Term, wantModel bool) (Result, Model, string)
 		}
 		t0 := time.Now()
 		r, m, w := p.check(as, vars)
-		if r != Unknown && pi > 0 && !hasFP {
-			// move-to-front: this solver rescued a query the preferred ones could not decide
-			s.rescues[p.name]++
-			if s.rescues[p.name] >= 2 {
-				np := []*proc{p}
-				for _, q := range s.procs {
-					if q != p {
-						np = append(np, q)
-					}
-				}
-				s.procs = np
-				s.rescues = map[string]int{}
-			}
-		}
+		dt := time.Since(t0).Seconds()
 		s.stats.Queries[p.name]++
-		s.stats.Wall[p.name] += time.Since(t0).Seconds()
+		s.stats.Wall[p.name] += dt
+		if pi == 0 && !hasFP && s.auto && len(s.procs) >= 2 {
+			k := 0
+			if p == s.procs[1] {
+				k = 1
+			}
+			cost := dt
+			if r == Unknown {
+				cost = s.timeout.Seconds() * 2
+			}
+			st.cnt[k]++
+			st.sum[k] += cost
+		}
 		if r == Unknown {
 			why += p.name + ":" + w + "; "
 			continue
@@ -470,4 +494,20 @@ func hasFPTerm(ts []*Term) bool {
 		}
 	}
 	return false
+}
+
+type classStat struct {
+	n   int
+	cnt [2]int
+	sum [2]float64
+}
+
+func (c *classStat) best() int {
+	if c.cnt[0] == 0 || c.cnt[1] == 0 {
+		return 0
+	}
+	if c.sum[1]/float64(c.cnt[1]) < c.sum[0]/float64(c.cnt[0]) {
+		return 1
+	}
+	return 0
 }
